@@ -148,7 +148,7 @@ class HistogramCollection(Container[Histogram1D], ObjectWithBinning):
             return Histogram1D(
                 data=np.zeros((self.binning.bin_count)),
                 dtype=np.int64,
-                binning=self.binning,
+                binning=self.binning.copy(),
             )
         return cast(Histogram1D, sum(self.histograms))
 
